@@ -233,15 +233,15 @@ theorem connAbort_done {t : State} (h : AbortReady t) : AbortDone t (connAbort t
   -- registered objects
   have hreg : ∀ i ∈ t.registered, ∀ k, (t.objs i).oid = some k →
       (t.added.get k = some i → ((connAbort t).objs i).oid = none) ∧
-      (t.added.get k = none → t.creating.has k = false →
+      (t.added.get k = none → t.creating.has k = false → tmpCreated t k = false →
         ((connAbort t).objs i).status = .ghost ∨ ((connAbort t).objs i).oid = none) := by
     intro i hi k hk
     obtain ⟨e1, e2⟩ := eA i hi k hk
     constructor
     · intro ha
       rw [shAX.noneKept i (e1 ha)]; exact e1 ha
-    · intro ha hncr
-      rcases e2 ha hncr with h1 | h1
+    · intro ha hncr hntc
+      rcases e2 ha hncr hntc with h1 | h1
       · exact Or.inl (shAX.ghostKept i h1)
       · right; rw [shAX.noneKept i h1]; exact h1
   have haddX : (connAbort t).added = [] := by
@@ -289,19 +289,30 @@ theorem connAbort_done {t : State} (h : AbortReady t) : AbortDone t (connAbort t
     have hcases : ((connAbort t).objs j).status = .ghost ∨ ((connAbort t).objs j).oid = none := by
       cases ha : t.added.get k with
       | none =>
-        cases hcr : t.creating.has k with
-        | false => exact e2 ha hcr
-        | true =>
-          right
+        have hcrk : crKey t k → ((connAbort t).objs j).oid = none := by
+          intro hck
           rcases sh.oid j with h1 | h1
           · exfalso
             have hoid : ((connAbort t).objs j).oid = some k := by rw [h1]; exact hk
             have hkn := hSX.known j k hoid
             simp only [List.not_mem_nil, or_false, haddX, Map.get_nil] at hkn
             rcases hkn with h2 | h2
-            · rw [hunc k (Or.inl hcr)] at h2; cases h2
+            · rw [hunc k hck] at h2; cases h2
             · cases h2
           · exact h1.1
+        cases hcr : t.creating.has k with
+        | false =>
+          cases htc : tmpCreated t k with
+          | false => exact e2 ha hcr htc
+          | true =>
+            right
+            apply hcrk
+            right
+            unfold tmpCreated at htc
+            cases hsp' : t.sp with
+            | none => rw [hsp'] at htc; cases htc
+            | some tt => rw [hsp'] at htc; exact ⟨tt, rfl, htc⟩
+        | true => exact Or.inr (hcrk (Or.inl hcr))
       | some j' =>
         have := hS.inj j' j k (hS.addedS k j' ha).1 hk
         subst this
@@ -492,25 +503,6 @@ theorem Inv12.abortReady {s : State} (h : Inv12 s) : AbortReady s := by
       exact ⟨q1 hg, q2⟩
 
 /-! ### … in particular the state in which a `_commit` into the temporary store failed -/
-
-theorem Prog.cachedOrigin {e r : State} (hP : Prog e [] r) {k j : Nat} (hc : r.cache.get k = some j) :
-    e.cache.get k = some j ∨ r.creating.has k = true := by
-  have hoj := hP.str.cacheS k j hc
-  cases ho0 : (e.objs j).oid with
-  | none =>
-    obtain ⟨_, hh⟩ := hP.newTracked j k ho0 hoj
-    simp only [List.not_mem_nil, false_or] at hh
-    exact Or.inr hh.1
-  | some k0 =>
-    have : k0 = k := by have := hP.oidKeep j k0 ho0; rw [hoj] at this; cases this; rfl
-    subst this
-    have hkn := hP.base.known j k0 ho0
-    simp only [List.not_mem_nil, or_false] at hkn
-    rcases hkn with h1 | h1
-    · exact Or.inl h1
-    · rcases hP.addedTracked k0 j h1 with h' | h'
-      · have := (hP.str.addedS k0 j h').2; rw [hc] at this; cases this
-      · exact Or.inr h'.1
 
 /-- the record the connection can load for a committed oid carries the committed serial -/
 theorem Inv12.loadSerial {e : State} (h : Inv12 e) {k : Nat} {r0 c : Rec} (hr0 : loadRec e k = some r0)
